@@ -3,6 +3,7 @@ package harness
 import (
 	"bytes"
 	"encoding/json"
+	"errors"
 	"fmt"
 	"hash/fnv"
 	"io"
@@ -156,6 +157,10 @@ type RunOpts struct {
 	// PriorArgs, with ReuseLinter and the command line entry point, makes the same Command object
 	// run Main with these arguments first.
 	PriorArgs []string
+	// PriorOutFail, with PriorRepo or PriorFile, makes the output writer of the shared Linter fail
+	// (as a closed pipe or a full disk does) after PriorOutFail-1 bytes during that earlier call;
+	// the writer is healthy again for the call that is measured.
+	PriorOutFail int
 	// After, when set, runs inside the simulation after the lint returned.
 	After func()
 }
@@ -212,6 +217,9 @@ func RunLint(w *World, c *Chooser, o RunOpts) *LintResult {
 			pw.Args = o.PriorArgs
 			lintOnce(&pw, &LintResult{}, shared)
 		}
+		if shared != nil {
+			shared.failOut = o.PriorOutFail
+		}
 		if shared != nil && w.API != APIMain && o.PriorRepo != "" {
 			pw := *w
 			pw.API, pw.Files = APIRepo, []string{o.PriorRepo}
@@ -221,6 +229,9 @@ func RunLint(w *World, c *Chooser, o RunOpts) *LintResult {
 			pw := *w
 			pw.API, pw.Files = APIFile, []string{o.PriorFile}
 			lintOnce(&pw, &LintResult{}, shared)
+		}
+		if shared != nil {
+			shared.failOut = 0
 		}
 		for i := 0; i < rep; i++ {
 			lintOnce(w, res, shared)
@@ -248,6 +259,25 @@ type sharedLinter struct {
 	l         *actionlint.Linter
 	out, errb bytes.Buffer
 	err       error
+	failOut   int // > 0: Write fails once failOut-1 bytes have been written in this call
+}
+
+// sharedOut is the output writer of a shared Linter: a buffer that can be made to fail.
+type sharedOut struct{ s *sharedLinter }
+
+func (w sharedOut) Write(p []byte) (int, error) {
+	if f := w.s.failOut; f > 0 {
+		room := f - 1 - w.s.out.Len()
+		if room < len(p) {
+			if room > 0 {
+				w.s.out.Write(p[:room])
+			} else {
+				room = 0
+			}
+			return room, errors.New("write |1: broken pipe")
+		}
+	}
+	return w.s.out.Write(p)
 }
 
 func lintOnce(w *World, res *LintResult, shared *sharedLinter) {
@@ -304,7 +334,7 @@ func lintOnce(w *World, res *LintResult, shared *sharedLinter) {
 		if shared != nil {
 			if shared.l == nil && shared.err == nil {
 				opts.LogWriter = &lockedWriter{b: &shared.errb}
-				shared.l, shared.err = actionlint.NewLinter(&shared.out, opts)
+				shared.l, shared.err = actionlint.NewLinter(sharedOut{shared}, opts)
 			}
 			l, err = shared.l, shared.err
 			shared.out.Reset()
